@@ -125,6 +125,9 @@ class FrontEnd:
             for i in idxs:
                 pts.append(self.canvas_value[i] if i < len(self.canvas_value) else None)   # undefined in JS
             new = self.encode(pts)
+            if len(new) > 1 and self.world.rng.random() < self.world.cfg.get('p_short', 0.0):
+                new = new[:-1]          # short report: the last draggable point is missing
+                self.world.stats['short_reports'] = self.world.stats.get('short_reports', 0) + 1
             if new != self.model.get('draggable_points') and self.reports_sent < self.world.cfg.get('max_reports', 40):
                 self.model['draggable_points'] = new
                 self.world.send_to_kernel({'method': 'update', 'state': {'draggable_points': new},
